@@ -163,3 +163,1229 @@ End Parser.
 Theorem parse_total : forall (L : Type) (parse_len : str -> option L) (s : str),
   match from_newick parse_len s with Panic _ => False | OutOfFuel => False | _ => True end.
 Proof. intros. exact (prun_np parse_len p_init s). Qed.
+
+(* ================================================================================================ *)
+(* Part 2: shape predicates on arenas (no parser involved)                                           *)
+(* ================================================================================================ *)
+
+Lemma rtree_ind' (P : rtree -> Prop) :
+  (forall i cs, Forall P cs -> P (RT i cs)) -> forall r, P r.
+Proof. intros H. fix IH 1. intros [i cs]. apply H. induction cs; constructor; auto. Qed.
+
+Lemma replace_nth_app_last {A} (l : list A) x y : replace_nth (length l) y (l ++ [x]) = l ++ [y].
+Proof. induction l; simpl; auto. f_equal; auto. Qed.
+
+Lemma replace_nth_app_l {A} (l l' : list A) i y :
+  i < length l -> replace_nth i y (l ++ l') = replace_nth i y l ++ l'.
+Proof. revert i; induction l; intros [|i]; simpl; intros; try lia; auto. f_equal. apply IHl. lia. Qed.
+
+Section Shape.
+Context {L : Type}.
+Notation node := (@node L).
+Notation arena := (@arena L).
+
+Definition same_tree (n n' : node) : Prop :=
+  nparent n' = nparent n /\ ndepth n' = ndepth n /\ nchildren n' = nchildren n.
+Definition same_meta (n n' : node) : Prop :=
+  nid n' = nid n /\ ndeleted n' = ndeleted n /\ nedges n' = nedges n.
+
+(* Rep without the liveness / id / edge-mirror clauses: those are tracked globally (Good) or
+   established only by the finishing pass. *)
+Inductive Rep0 (t : arena) : option nat -> nat -> rtree -> Prop :=
+| Rep0_node : forall p d i n cs,
+    nth_error t i = Some n -> nparent n = p -> ndepth n = d -> nchildren n = map rid cs ->
+    Forall (Rep0 t (Some i) (S d)) cs ->
+    Rep0 t p d (RT i cs).
+
+Definition sh (t t' : arena) (j : nat) : Prop :=
+  forall n, nth_error t j = Some n -> exists n', nth_error t' j = Some n' /\ same_tree n n'.
+
+Lemma sh_eq t t' j : nth_error t' j = nth_error t j -> sh t t' j.
+Proof. intros H n Hn. exists n. rewrite H. repeat split; auto. Qed.
+
+Lemma Rep0_transfer (t t' : arena) : forall r p d,
+  Rep0 t p d r -> (forall j, In j (ids r) -> sh t t' j) -> Rep0 t' p d r.
+Proof.
+  induction r as [i cs IH] using rtree_ind'. intros p d HR Hs.
+  inversion HR; subst.
+  destruct (Hs i (or_introl eq_refl) _ H1) as [n' [Hn' [Hp [Hd Hc]]]].
+  econstructor; eauto; try congruence.
+  rewrite Forall_forall in *. intros c Hc'. apply IH; auto.
+  intros j Hj. apply Hs. simpl. right. apply in_flat_map. eauto.
+Qed.
+
+Definition Good (t : arena) : Prop :=
+  forall i n, nth_error t i = Some n ->
+    ndeleted n = false /\ nid n = i /\ nedges n = [] /\ (forall p, nparent n = Some p -> p < i).
+
+Definition NodeIs (t : arena) (i : nat) (p : option nat) (d : nat) (cl : list nat) : Prop :=
+  exists n, nth_error t i = Some n /\ nparent n = p /\ ndepth n = d /\ nchildren n = cl.
+
+Lemma NodeIs_sh t t' i p d cl : NodeIs t i p d cl -> sh t t' i -> NodeIs t' i p d cl.
+Proof.
+  intros [n [Hn [Hp [Hd Hc]]]] Hs. destruct (Hs _ Hn) as [n' [Hn' [Hp' [Hd' Hc']]]].
+  exists n'. repeat split; congruence.
+Qed.
+
+Definition frame := (nat * list rtree)%type.
+
+(* the stack of open nodes (head = innermost); [above] is the id of the next inner open node *)
+Fixpoint Frames (t : arena) (above : list nat) (fs : list frame) : Prop :=
+  match fs with
+  | [] => True
+  | (i, done) :: below =>
+      NodeIs t i (match below with [] => None | (p, _) :: _ => Some p end) (length below)
+             (map rid done ++ above)
+      /\ Forall (Rep0 t (Some i) (S (length below))) done
+      /\ Frames t [i] below
+  end.
+
+Fixpoint zip_ids (fs : list frame) : list nat :=
+  match fs with
+  | [] => []
+  | (i, done) :: below => zip_ids below ++ i :: flat_map pre done
+  end.
+
+Lemma Forall_Rep0_transfer (t t' : arena) p d cs :
+  Forall (Rep0 t p d) cs -> (forall j, In j (flat_map pre cs) -> sh t t' j) -> Forall (Rep0 t' p d) cs.
+Proof.
+  intros H Hs. rewrite Forall_forall in *. intros r Hr.
+  eapply Rep0_transfer; eauto. intros j Hj. apply Hs. apply in_flat_map. eauto.
+Qed.
+
+Lemma Frames_transfer (t t' : arena) : forall fs above,
+  Frames t above fs -> (forall j, In j (zip_ids fs) -> sh t t' j) -> Frames t' above fs.
+Proof.
+  induction fs as [|[i done] below IH]; simpl; auto.
+  intros above [HN [HD HF]] Hs. repeat split.
+  - eapply NodeIs_sh; eauto. apply Hs. apply in_or_app. right. left. auto.
+  - eapply Forall_Rep0_transfer; eauto. intros j Hj. apply Hs. apply in_or_app. right. right. auto.
+  - apply IH; auto. intros j Hj. apply Hs. apply in_or_app. auto.
+Qed.
+
+(* the parser invariant on (tree, pending index, stack, open count) *)
+Definition PI (t : arena) (idx : option nat) (stack : list nat) (open : nat) : Prop :=
+  Good t /\ open = length stack /\ (forall i, idx = Some i -> i < length t) /\
+  ( (t = [] /\ stack = [])
+  \/ (exists fs, fs <> [] /\ stack = map fst fs /\ Frames t [] fs /\ zip_ids fs = seq 0 (length t))
+  \/ (stack = [] /\ exists r, Rep0 t None 0 r /\ ids r = seq 0 (length t))).
+
+Lemma PI_transfer t t' idx st op :
+  PI t idx st op -> length t' = length t -> Good t' -> (forall j, sh t t' j) -> PI t' idx st op.
+Proof.
+  intros [HG [Ho [Hi Hc]]] Hl HG' Hs. split; [auto|split; [auto|split]].
+  - intros i E. rewrite Hl. auto.
+  - destruct Hc as [[Ht Hst]|[[fs [Hne [Hst [HF Hz]]]]|[Hst [r [HR Hids]]]]].
+    + left. subst. destruct t'; simpl in *; auto; discriminate.
+    + right. left. exists fs. repeat split; auto.
+      * eapply Frames_transfer; eauto.
+      * rewrite Hl; auto.
+    + right. right. split; auto. exists r. split.
+      * eapply Rep0_transfer; eauto.
+      * rewrite Hl; auto.
+Qed.
+
+Lemma PI_shape t idx st op j n n3 :
+  PI t idx st op -> nth_error t j = Some n -> same_tree n n3 -> same_meta n n3 ->
+  PI (replace_nth j n3 t) idx st op.
+Proof.
+  intros HP Hn Ht Hm. pose proof (nth_error_Some_lt _ _ Hn) as Hlt.
+  eapply PI_transfer; eauto.
+  - apply replace_nth_length.
+  - destruct HP as [HG _]. intros i m Hm'.
+    destruct (Nat.eq_dec j i) as [->|Hne].
+    + rewrite nth_error_replace_nth_eq in Hm' by auto. inversion Hm'; subst.
+      destruct (HG _ _ Hn) as [A [B [C D]]]. destruct Hm as [A' [B' C']]. destruct Ht as [T1 _].
+      split; [congruence|]. split; [congruence|]. split; [congruence|]. rewrite T1. exact D.
+    + rewrite nth_error_replace_nth_neq in Hm' by auto. eauto.
+  - intros i. destruct (Nat.eq_dec j i) as [->|Hne].
+    + intros m Hm'. exists n3. rewrite nth_error_replace_nth_eq by auto. split; congruence.
+    + apply sh_eq. apply nth_error_replace_nth_neq; auto.
+Qed.
+
+Lemma PI_idx t idx idx' st op :
+  PI t idx st op -> (forall i, idx' = Some i -> i < length t) -> PI t idx' st op.
+Proof. intros [HG [Ho [Hi Hc]]] H. split; [auto|split; [auto|split]]; auto. Qed.
+
+(* --- add_child of a fresh unlabeled leaf ------------------------------------------------------- *)
+Lemma add_leaf_spec (t : arena) parent t' id :
+  add_child t (new_node None None) parent None = Ok (t', id) ->
+  exists pn, nth_error t parent = Some pn /\ id = length t /\ length t' = S (length t) /\
+    nth_error t' parent = Some (set_nchildren pn (nchildren pn ++ [length t])) /\
+    nth_error t' (length t) = Some (mkNode (length t) None (Some parent) [] None None [] (ndepth pn + 1) false) /\
+    (forall j, j <> parent -> j <> length t -> nth_error t' j = nth_error t j).
+Proof.
+  unfold add_child. destruct (Nat.leb (length t) parent) eqn:Hle; [discriminate|].
+  apply Nat.leb_gt in Hle.
+  unfold get at 1. destruct (nth_error t parent) as [pn|] eqn:Hpn; [|discriminate].
+  destruct (ndeleted pn) eqn:Hdel; [discriminate|]. simpl bind. unfold add.
+  unfold upd at 1. unfold get. rewrite nth_error_app2 by lia. rewrite Nat.sub_diag. simpl.
+  rewrite replace_nth_app_last.
+  unfold upd, get. rewrite nth_error_app1 by lia. rewrite Hpn, Hdel. simpl.
+  intros H. inversion H; subst; clear H.
+  exists pn. split; auto. split; auto.
+  rewrite replace_nth_app_l by lia.
+  split. { rewrite app_length, replace_nth_length. simpl. lia. }
+  split. { rewrite nth_error_app1 by (rewrite replace_nth_length; lia).
+           rewrite nth_error_replace_nth_eq by lia. reflexivity. }
+  split. { rewrite nth_error_app2 by (rewrite replace_nth_length; lia).
+           rewrite replace_nth_length, Nat.sub_diag. reflexivity. }
+  intros j Hj1 Hj2. destruct (Nat.lt_ge_cases j (length t)).
+  - rewrite nth_error_app1 by (rewrite replace_nth_length; lia).
+    apply nth_error_replace_nth_neq; auto.
+  - assert (nth_error t j = None) as -> by (apply nth_error_None; lia).
+    apply nth_error_None. rewrite app_length, replace_nth_length. simpl. lia.
+Qed.
+
+Lemma Good_single (n : node) :
+  ndeleted n = false -> nid n = 0 -> nedges n = [] -> nparent n = None -> Good [n].
+Proof.
+  intros A B C D [|i] m Hm; simpl in Hm.
+  - inversion Hm; subst. repeat split; auto. intros p E. congruence.
+  - destruct i; discriminate.
+Qed.
+
+Lemma PI_root idx op :
+  PI [] idx [] op -> PI (fst (add [] (new_node None None))) idx [0] (S op).
+Proof.
+  intros [HG [Ho [Hi Hc]]]. simpl.
+  split; [apply Good_single; reflexivity|].
+  split; [simpl in *; lia|].
+  split. { intros i E. specialize (Hi _ E). simpl in Hi. lia. }
+  right. left. exists [(0, [])]. split; [discriminate|]. split; [reflexivity|].
+  split; [|reflexivity]. simpl. repeat split; auto.
+  eexists. repeat split; reflexivity.
+Qed.
+
+(* the facts shared by "new leaf under the innermost open node" and "open a new inner node" *)
+Lemma add_leaf_frames (t t' : arena) parent id done below :
+  add_child t (new_node None None) parent None = Ok (t', id) ->
+  Good t ->
+  Frames t [] ((parent, done) :: below) ->
+  zip_ids ((parent, done) :: below) = seq 0 (length t) ->
+  id = length t /\ length t' = S (length t) /\ Good t' /\
+  NodeIs t' parent (match below with [] => None | (p, _) :: _ => Some p end) (length below)
+         (map rid done ++ [id]) /\
+  NodeIs t' id (Some parent) (S (length below)) [] /\
+  Forall (Rep0 t' (Some parent) (S (length below))) done /\
+  Frames t' [parent] below.
+Proof.
+  intros Hadd HG [HN [HD HF]] Hz.
+  destruct (add_leaf_spec _ _ Hadd) as [pn [Hpn [-> [Hlen [Hp' [Hnew Hother]]]]]].
+  simpl in Hz.
+  assert (Hnd : NoDup (zip_ids below ++ parent :: flat_map pre done)) by (rewrite Hz; apply seq_NoDup).
+  apply NoDup_remove_2 in Hnd.
+  assert (Hlt : forall j, In j (zip_ids below ++ flat_map pre done) -> j < length t).
+  { intros j Hj. assert (In j (seq 0 (length t))) as Hin.
+    { rewrite <- Hz. apply in_app_or in Hj. apply in_or_app. destruct Hj; auto. right; right; auto. }
+    apply in_seq in Hin. lia. }
+  assert (Hsh : forall j, In j (zip_ids below ++ flat_map pre done) -> sh t t' j).
+  { intros j Hj. apply sh_eq. apply Hother.
+    - intros ->. auto.
+    - specialize (Hlt _ Hj). lia. }
+  destruct HN as [pn0 [Hpn0 [Hpp [Hpd Hpc]]]]. rewrite Hpn in Hpn0. inversion Hpn0; subst pn0; clear Hpn0.
+  rewrite app_nil_r in Hpc.
+  split; auto. split; auto. split.
+  { intros i m Hm. destruct (Nat.eq_dec i parent) as [->|Hne].
+    - rewrite Hp' in Hm. inversion Hm; subst; simpl. apply (HG _ _ Hpn).
+    - destruct (Nat.eq_dec i (length t)) as [->|Hne2].
+      + rewrite Hnew in Hm. inversion Hm; subst; simpl. repeat split; auto.
+        intros p E. inversion E; subst. eapply nth_error_Some_lt; eauto.
+      + rewrite Hother in Hm by auto. eauto. }
+  split. { eexists. split; [exact Hp'|]. simpl. rewrite Hpc. auto. }
+  split. { eexists. split; [exact Hnew|]. simpl. rewrite Hpd. repeat split; auto. apply Nat.add_1_r. }
+  split.
+  - eapply Forall_Rep0_transfer; eauto. intros j Hj. apply Hsh. apply in_or_app; auto.
+  - eapply Frames_transfer; eauto. intros j Hj. apply Hsh. apply in_or_app; auto.
+Qed.
+
+Lemma stack_frames (fs : list frame) parent rest :
+  parent :: rest = map fst fs -> exists done below, fs = (parent, done) :: below /\ rest = map fst below.
+Proof.
+  destruct fs as [|[i done] below]; simpl; intros H; inversion H; subst. eauto.
+Qed.
+
+Lemma PI_open_inv t idx parent rest op :
+  PI t idx (parent :: rest) op ->
+  Good t /\ op = S (length rest) /\ (forall i, idx = Some i -> i < length t) /\
+  exists done below, rest = map fst below /\ Frames t [] ((parent, done) :: below) /\
+     zip_ids ((parent, done) :: below) = seq 0 (length t).
+Proof.
+  intros [HG [Ho [Hi Hc]]]. split; auto. split; auto. split; auto.
+  destruct Hc as [[_ Hst]|[[fs [Hne [Hst [HF Hz]]]]|[Hst _]]]; try discriminate.
+  destruct (stack_frames _ Hst) as [done [below [-> Hr]]]. eauto.
+Qed.
+
+Lemma PI_leaf t idx parent rest op t' id :
+  PI t idx (parent :: rest) op ->
+  add_child t (new_node None None) parent None = Ok (t', id) ->
+  PI t' idx (parent :: rest) op /\ id < length t'.
+Proof.
+  intros HP Hadd. destruct (PI_open_inv HP) as [HG [Ho [Hi [done [below [Hr [HF Hz]]]]]]].
+  destruct (add_leaf_frames Hadd HG HF Hz) as [-> [Hlen [HG' [HNp [HNn [HD HFb]]]]]].
+  split; [|lia].
+  split; auto. split; auto. split. { intros i E. specialize (Hi _ E). lia. }
+  right. left. exists ((parent, done ++ [RT (length t) []]) :: below).
+  split; [discriminate|]. split; [simpl; congruence|]. split.
+  - simpl. split.
+    + rewrite map_app, app_nil_r. exact HNp.
+    + split; auto. apply Forall_app. split; auto. constructor; auto.
+      destruct HNn as [n [A [B [C D]]]]. econstructor; eauto.
+  - simpl in *. rewrite flat_map_app. simpl. rewrite ?app_nil_r.
+    rewrite Hlen, seq_S, <- Hz. simpl. rewrite <- app_assoc. simpl. reflexivity.
+Qed.
+
+Lemma PI_push t idx parent rest op t' id :
+  PI t idx (parent :: rest) op ->
+  add_child t (new_node None None) parent None = Ok (t', id) ->
+  PI t' idx (id :: parent :: rest) (S op).
+Proof.
+  intros HP Hadd. destruct (PI_open_inv HP) as [HG [Ho [Hi [done [below [Hr [HF Hz]]]]]]].
+  destruct (add_leaf_frames Hadd HG HF Hz) as [-> [Hlen [HG' [HNp [HNn [HD HFb]]]]]].
+  split; auto. split; [simpl; lia|]. split. { intros i E. specialize (Hi _ E). lia. }
+  right. left. exists ((length t, []) :: (parent, done) :: below).
+  split; [discriminate|]. split; [simpl; congruence|]. split.
+  - simpl. split; [exact HNn|]. split; [constructor|]. split; auto.
+  - simpl in *. rewrite Hlen, seq_S, <- Hz. simpl. reflexivity.
+Qed.
+
+Lemma PI_pop t idx parent rest op :
+  PI t idx (parent :: rest) op -> PI t (Some parent) rest (op - 1).
+Proof.
+  intros HP. destruct (PI_open_inv HP) as [HG [Ho [Hi [done [below [Hr [HF Hz]]]]]]].
+  destruct HF as [HN [HD HFb]].
+  split; auto. split; [lia|]. split.
+  { intros i E. inversion E; subst. destruct HN as [n [A _]]. eapply nth_error_Some_lt; eauto. }
+  rewrite app_nil_r in HN.
+  destruct below as [|[q doneq] below'].
+  - right. right. split; auto. exists (RT parent done). split; auto.
+    destruct HN as [n [A [B [C D]]]]. econstructor; eauto.
+  - right. left. exists ((q, doneq ++ [RT parent done]) :: below').
+    split; [discriminate|]. split; [simpl in *; congruence|].
+    simpl in HFb. destruct HFb as [HNq [HDq HFq]]. split.
+    + simpl. split; [rewrite map_app, app_nil_r; exact HNq|]. split; auto.
+      apply Forall_app. split; auto. constructor; auto.
+      destruct HN as [n [A [B [C D]]]]. econstructor; eauto.
+    + rewrite <- Hz. simpl. rewrite flat_map_app. simpl. rewrite ?app_nil_r.
+      rewrite <- !app_assoc. simpl. reflexivity.
+Qed.
+
+End Shape.
+
+(* ================================================================================================ *)
+(* Part 3: the parser preserves the invariant                                                        *)
+(* ================================================================================================ *)
+Section ParserInv.
+Context {L : Type}.
+Variable parse_len : str -> option L.
+Notation node := (@node L).
+Notation arena := (@arena L).
+Notation pstate := (@pstate L).
+Notation pres := (@pres L).
+
+Definition PInv (s : pstate) : Prop := PI (p_tree s) (p_index s) (p_stack s) (p_open s).
+
+Lemma PInv_init : PInv (@p_init L).
+Proof.
+  unfold PInv; simpl. split.
+  - intros [|i] n H; discriminate H.
+  - split; auto. split; [intros i E; discriminate|]. left; auto.
+Qed.
+
+Definition is_fail (r : pres) : Prop :=
+  match r with Done (Ok _) => False | Done _ => True | Running _ => False end.
+
+Lemma get_Ok (t : arena) i n : get t i = Ok n -> nth_error t i = Some n /\ ndeleted n = false.
+Proof.
+  unfold get. destruct (nth_error t i) as [m|]; [|discriminate].
+  destruct (ndeleted m) eqn:E; [discriminate|]. intros H; inversion H; subst; auto.
+Qed.
+
+Lemma lift_run_cases {A} (o : outcome A) (k : A -> pres) :
+  is_fail (lift_run o k) \/ exists a, o = Ok a /\ lift_run o k = k a.
+Proof. destruct o; simpl; eauto. Qed.
+
+Definition with_node (s : pstate) (k : arena -> pres) (t : arena) (idx : nat) : pres :=
+  lift_run (get t idx) (fun n =>
+    let n1 := match p_name s with Some nm => set_nname n (Some nm) | None => n end in
+    match (match p_len s with
+           | Some ls => match parse_len ls with Some v => Some (Some v) | None => None end
+           | None => Some None
+           end) with
+    | None => Done (Err FloatError)
+    | Some edge =>
+        let n2 := match nparent n1 with Some p => node_set_parent n1 p edge | None => n1 end in
+        let n3 := set_ncomment n2 (p_comment s) in
+        k (replace_nth idx n3 t)
+    end).
+
+Lemma commit_unfold s k :
+  commit parse_len s k =
+  match p_index s with
+  | Some idx => with_node s k (p_tree s) idx
+  | None =>
+      match p_stack s with
+      | parent :: _ =>
+          lift_run (add_child (p_tree s) (new_node None None) parent None)
+                   (fun r => with_node s k (fst r) (snd r))
+      | [] => Done (Err NoSubtreeParent)
+      end
+  end.
+Proof. reflexivity. Qed.
+
+Lemma with_node_cases s k t idx :
+  is_fail (with_node s k t idx) \/
+  exists n n3, nth_error t idx = Some n /\ same_tree n n3 /\ same_meta n n3 /\
+               with_node s k t idx = k (replace_nth idx n3 t).
+Proof.
+  unfold with_node. destruct (get t idx) as [n| | |] eqn:Hg; simpl lift_run; try (left; exact I).
+  cbv zeta. apply get_Ok in Hg. destruct Hg as [Hn Hd].
+  destruct (match p_len s with Some ls => _ | None => _ end) as [edge|]; [|left; exact I].
+  right. eexists. eexists. split; [exact Hn|]. split; [|split; [|reflexivity]].
+  - destruct (p_name s); simpl; destruct (nparent n) eqn:E; simpl; repeat split; auto.
+  - destruct (p_name s); simpl; destruct (nparent n) eqn:E; simpl; repeat split; auto.
+Qed.
+
+Lemma commit_PI s k op :
+  PI (p_tree s) (p_index s) (p_stack s) op ->
+  is_fail (commit parse_len s k) \/
+  exists t', PI t' None (p_stack s) op /\ commit parse_len s k = k t'.
+Proof.
+  intros HP. rewrite commit_unfold.
+  destruct (p_index s) as [idx|] eqn:Hidx.
+  - destruct (with_node_cases s k (p_tree s) idx) as [Hf|[n [n3 [Hn [Ht [Hm Heq]]]]]]; [left; auto|].
+    right. eexists. split; [|exact Heq].
+    eapply PI_idx; [eapply PI_shape; eauto|]. intros i E; discriminate.
+  - destruct (p_stack s) as [|parent rest] eqn:Hst; [left; exact I|].
+    destruct (lift_run_cases (add_child (p_tree s) (new_node None None) parent None)
+                (fun r => with_node s k (fst r) (snd r))) as [Hf|[[t0 id] [Hadd Heq]]]; [left; auto|].
+    rewrite Heq. simpl fst; simpl snd.
+    destruct (PI_leaf HP Hadd) as [HP' Hlt].
+    destruct (with_node_cases s k t0 id) as [Hf|[n [n3 [Hn [Ht [Hm Heq']]]]]]; [left; auto|].
+    right. eexists. split; [|exact Heq'].
+    eapply PI_idx; [eapply PI_shape; eauto|]. intros i E; discriminate.
+Qed.
+
+Ltac step_if_eq :=
+  match goal with |- (if ?b then _ else _) = _ -> _ => destruct b eqn:? end.
+Ltac label_only HP := let H := fresh in intros H; inversion H; subst; exact HP.
+
+Lemma pstep_PInv s c s' : PInv s -> pstep parse_len s c = Running s' -> PInv s'.
+Proof.
+  intros HP. unfold pstep.
+  step_if_eq; [label_only HP|].
+  step_if_eq; [label_only HP|].
+  step_if_eq; [label_only HP|].
+  step_if_eq; [label_only HP|].
+  step_if_eq; [label_only HP|].
+  step_if_eq; [label_only HP|].
+  step_if_eq.
+  { unfold PInv in HP. destruct (p_stack s) as [|parent rest] eqn:Hst.
+    - destruct (p_tree s) eqn:Ht; [|discriminate].
+      intros H; inversion H; subst. unfold PInv; simpl. apply (PI_root HP).
+    - destruct (lift_run_cases (add_child (p_tree s) (new_node None None) parent None)
+        (fun r => Running (mkP (fst r) (p_field s) (p_name s) (p_len s) (p_comment s) (p_index s)
+                               (snd r :: parent :: rest) (S (p_open s)) (p_quotes s))))
+        as [Hf|[[t0 id] [Hadd Heq]]].
+      + intros H. rewrite H in Hf. destruct Hf.
+      + rewrite Heq. intros H; inversion H; subst. unfold PInv; simpl.
+        eapply PI_push; eauto. }
+  step_if_eq; [label_only HP|].
+  step_if_eq.
+  { destruct (commit_PI s (fun t => Running (mkP t FName None None None None (p_stack s) (p_open s) (p_quotes s))) HP)
+      as [Hf|[t' [HP' Heq]]].
+    - intros H. rewrite H in Hf. destruct Hf.
+    - rewrite Heq. intros H; inversion H; subst. exact HP'. }
+  step_if_eq.
+  { set (s1 := mkP (p_tree s) (p_field s) (p_name s) (p_len s) (p_comment s) (p_index s) (p_stack s) (p_open s - 1) (p_quotes s)).
+    destruct (@commit_PI s1 (fun t =>
+      match p_stack s with
+      | parent :: rest => Running (mkP t FName None None None (Some parent) rest (p_open s - 1) (p_quotes s))
+      | [] => Done (Err NoSubtreeParent)
+      end) (p_open s) HP) as [Hf|[t' [HP' Heq]]].
+    - intros H. rewrite H in Hf. destruct Hf.
+    - rewrite Heq. simpl in HP'. destruct (p_stack s) as [|parent rest]; [discriminate|].
+      intros H; inversion H; subst. unfold PInv; simpl. eapply PI_pop; eauto. }
+  step_if_eq.
+  { step_if_eq; [discriminate|].
+    destruct (p_index s).
+    - unfold lift_run. destruct (get (p_tree s) n); try discriminate.
+      destruct (match p_len s with Some ls => _ | None => _ end); [|discriminate].
+      destruct (finish _); discriminate.
+    - destruct (p_tree s); [|discriminate]. simpl.
+      destruct (match p_len s with Some ls => _ | None => _ end); [|discriminate].
+      destruct (finish _); discriminate. }
+  destruct (p_field s); [label_only HP| |discriminate].
+  step_if_eq; [discriminate|label_only HP].
+Qed.
+
+End ParserInv.
+
+(* ================================================================================================ *)
+(* Part 4: the finishing pass establishes the edge mirror; closed states are well formed            *)
+(* ================================================================================================ *)
+Section Finish.
+Context {L : Type}.
+Notation node := (@node L).
+Notation arena := (@arena L).
+
+Lemma edge_get_insert (es : list (nat * L)) c v c' :
+  edge_get (edge_insert es c v) c' = if Nat.eqb c c' then Some v else edge_get es c'.
+Proof.
+  induction es as [|[k w] es IH]; simpl.
+  - destruct (Nat.eqb c c'); auto.
+  - destruct (Nat.eqb_spec k c) as [->|Hkc]; simpl.
+    + destruct (Nat.eqb c c'); auto.
+    + destruct (Nat.ltb c k); simpl.
+      * destruct (Nat.eqb c c'); auto.
+      * rewrite IH. destruct (Nat.eqb_spec k c') as [->|Hkc'].
+        -- destruct (Nat.eqb_spec c c'); auto. congruence.
+        -- auto.
+Qed.
+
+Lemma map_nid_seq_gen (t : arena) : forall k,
+  (forall i n, nth_error t i = Some n -> nid n = k + i) -> map (@nid L) t = seq k (length t).
+Proof.
+  induction t as [|a t IH]; simpl; intros k H; auto. f_equal.
+  - rewrite (H 0 a eq_refl). lia.
+  - apply IH. intros i n Hn. rewrite (H (S i) n Hn). lia.
+Qed.
+
+Lemma map_nid_seq (t : arena) : Good t -> map (@nid L) t = seq 0 (length t).
+Proof. intros HG. apply map_nid_seq_gen. intros i n Hn. apply HG in Hn. simpl. tauto. Qed.
+
+Definition fin_step (t : arena) (id : nat) : outcome arena :=
+  n <- get t id ;;
+  match npedge n, nparent n with
+  | Some e, Some p => upd t p (fun x => node_set_child_edge x id (Some e))
+  | _, _ => Ok t
+  end.
+
+Lemma finish_unfold (t : arena) : finish t = foldM fin_step (map (@nid L) t) t.
+Proof. reflexivity. Qed.
+
+Definition EdgeOf (t : arena) (i c : nat) : option L :=
+  match nth_error t c with
+  | Some nc => match nparent nc with
+               | Some p => if Nat.eqb p i then npedge nc else None
+               | None => None
+               end
+  | None => None
+  end.
+
+Definition same_but_edges (n n' : node) : Prop :=
+  nid n' = nid n /\ nparent n' = nparent n /\ nchildren n' = nchildren n /\ npedge n' = npedge n /\
+  ndepth n' = ndepth n /\ ndeleted n' = ndeleted n /\ nname n' = nname n /\ ncomment n' = ncomment n.
+
+Definition FinInv (t1 : arena) (k : nat) (tk : arena) : Prop :=
+  length tk = length t1 /\
+  forall i n, nth_error t1 i = Some n ->
+    exists n', nth_error tk i = Some n' /\ same_but_edges n n' /\
+      forall c, edge_get (nedges n') c = if Nat.ltb c k then EdgeOf t1 i c else None.
+
+Lemma ltb_S_neq c k : c <> k -> Nat.ltb c (S k) = Nat.ltb c k.
+Proof.
+  intros H. destruct (Nat.ltb_spec c k); [apply Nat.ltb_lt|apply Nat.ltb_ge]; lia.
+Qed.
+
+Lemma fin_step_inv t1 k tk tk' :
+  FinInv t1 k tk -> k < length t1 -> fin_step tk k = Ok tk' -> FinInv t1 (S k) tk'.
+Proof.
+  intros [Hlen HI] Hk Hstep.
+  destruct (nth_error_lt_Some _ Hk) as [nk Hnk].
+  destruct (HI _ _ Hnk) as [nk' [Hnk' [Hsame Hedge]]].
+  unfold fin_step in Hstep. unfold get in Hstep at 1. rewrite Hnk' in Hstep.
+  destruct (ndeleted nk') eqn:Hdel; [discriminate|]. simpl in Hstep.
+  assert (HE : forall i, EdgeOf t1 i k =
+             match npedge nk', nparent nk' with
+             | Some e, Some p => if Nat.eqb p i then Some e else None
+             | _, _ => None
+             end).
+  { intros i. unfold EdgeOf. rewrite Hnk.
+    destruct Hsame as (_ & -> & _ & -> & _).
+    destruct (nparent nk); destruct (npedge nk); auto. destruct (Nat.eqb _ _); auto. }
+  assert (Hkk : Nat.ltb k (S k) = true) by (apply Nat.ltb_lt; lia).
+  assert (Hkk' : Nat.ltb k k = false) by (apply Nat.ltb_irrefl).
+  assert (Hkeep : (forall i, EdgeOf t1 i k = None) -> FinInv t1 (S k) tk).
+  { intros HN. split; auto. intros i n Hn. destruct (HI _ _ Hn) as [n' [Hn' [Hs He]]].
+    exists n'. split; auto. split; auto. intros c. rewrite He.
+    destruct (Nat.eq_dec c k) as [->|Hck].
+    - rewrite Hkk, Hkk', HN. auto.
+    - rewrite ltb_S_neq by auto. auto. }
+  destruct (npedge nk') as [e|] eqn:Hpe; [destruct (nparent nk') as [p|] eqn:Hpp|].
+  - unfold upd in Hstep. destruct (get tk p) as [np'| | |] eqn:Hg; try discriminate.
+    simpl in Hstep. inversion Hstep; subst tk'; clear Hstep.
+    unfold get in Hg. destruct (nth_error tk p) as [np0|] eqn:Hnp'; [|discriminate].
+    destruct (ndeleted np0); [discriminate|]. inversion Hg; subst np0; clear Hg.
+    split. { rewrite replace_nth_length; auto. }
+    intros i n Hn. destruct (HI _ _ Hn) as [n' [Hn' [Hs He]]].
+    destruct (Nat.eq_dec p i) as [->|Hne].
+    + rewrite Hn' in Hnp'. inversion Hnp'; subst np'.
+      eexists. split. { apply nth_error_replace_nth_eq. eapply nth_error_Some_lt; eauto. }
+      split. { exact Hs. }
+      intros c. simpl. rewrite edge_get_insert, He.
+      destruct (Nat.eqb_spec k c) as [<-|Hkc].
+      * rewrite Hkk, HE, Nat.eqb_refl. auto.
+      * rewrite ltb_S_neq by auto. auto.
+    + exists n'. split. { rewrite nth_error_replace_nth_neq; auto. }
+      split; auto. intros c. rewrite He.
+      destruct (Nat.eq_dec c k) as [->|Hck].
+      * rewrite Hkk, Hkk', HE. apply Nat.eqb_neq in Hne. rewrite Hne. auto.
+      * rewrite ltb_S_neq by auto. auto.
+  - inversion Hstep; subst tk'. apply Hkeep. intros i. rewrite HE. auto.
+  - inversion Hstep; subst tk'. apply Hkeep. intros i. rewrite HE. auto.
+Qed.
+
+Lemma fin_fold t1 : forall m k tk t',
+  k + m = length t1 -> FinInv t1 k tk -> foldM fin_step (seq k m) tk = Ok t' ->
+  FinInv t1 (length t1) t'.
+Proof.
+  induction m as [|m IH]; simpl; intros k tk t' Hkm HI Hf.
+  - inversion Hf; subst. replace (length t1) with k by lia. auto.
+  - destruct (fin_step tk k) as [tk'| | |] eqn:E; try discriminate. simpl in Hf.
+    eapply (IH (S k)); [lia| |exact Hf]. eapply fin_step_inv; eauto. lia.
+Qed.
+
+Lemma finish_spec t1 t' : Good t1 -> finish t1 = Ok t' -> FinInv t1 (length t1) t'.
+Proof.
+  intros HG Hf. rewrite finish_unfold, map_nid_seq in Hf by auto.
+  eapply (@fin_fold t1 (length t1) 0); eauto.
+  split; auto. intros i n Hn. exists n. split; auto. split; [repeat split; auto|].
+  intros c. destruct (HG _ _ Hn) as (_ & _ & -> & _). reflexivity.
+Qed.
+
+(* --- from Rep0 + pointwise node facts to Rep ---------------------------------------------------- *)
+Lemma Forall2_map_rid (R : nat -> rtree -> Prop) cs :
+  Forall (fun r => R (rid r) r) cs -> Forall2 R (map rid cs) cs.
+Proof. induction 1; simpl; constructor; auto. Qed.
+
+Lemma Rep0_root_node (t : arena) p d r :
+  Rep0 t p d r -> exists n, nth_error t (rid r) = Some n /\ nparent n = p /\ ndepth n = d.
+Proof. intros H; inversion H; subst; simpl; eauto. Qed.
+
+Lemma Rep0_parent (t : arena) : forall r p d, Rep0 t p d r -> forall c, In c (ids r) ->
+  c = rid r \/ exists j nj nc, nth_error t j = Some nj /\ In c (nchildren nj) /\
+                               nth_error t c = Some nc /\ nparent nc = Some j.
+Proof.
+  induction r as [i cs IH] using rtree_ind'. intros p d HR c Hc.
+  inversion HR; subst. simpl in Hc. destruct Hc as [->|Hc]; [left; auto|]. right.
+  apply in_flat_map in Hc. destruct Hc as [rc [Hrc Hc]].
+  rewrite Forall_forall in IH, H7.
+  destruct (IH _ Hrc _ _ (H7 _ Hrc) _ Hc) as [->|Hex]; auto.
+  destruct (Rep0_root_node (H7 _ Hrc)) as [nc [Hnc [Hpc _]]].
+  exists i, n, nc. repeat split; auto. rewrite H6. apply in_map; auto.
+Qed.
+
+Lemma Rep0_Rep (t : arena) : forall r p d, Rep0 t p d r ->
+  (forall i n, nth_error t i = Some n ->
+     ndeleted n = false /\ nid n = i /\
+     (forall c nc, nth_error t c = Some nc -> nparent nc = Some i -> edge_get (nedges n) c = npedge nc) /\
+     (forall c, edge_get (nedges n) c <> None -> In c (nchildren n))) ->
+  Rep t p d (rid r) r.
+Proof.
+  induction r as [i cs IH] using rtree_ind'. intros p d HR HN.
+  inversion HR; subst. simpl. destruct (HN _ _ H1) as (A & B & C & D).
+  rewrite Forall_forall in IH, H7.
+  econstructor; eauto.
+  - rewrite H6. apply Forall2_map_rid. apply Forall_forall. intros rc Hrc. apply IH; auto.
+  - intros c nc Hin Hnc. apply C; auto. rewrite H6 in Hin. apply in_map_iff in Hin.
+    destruct Hin as [rc [<- Hrc]]. destruct (Rep0_root_node (H7 _ Hrc)) as [nc' [Hnc' [Hp _]]].
+    congruence.
+Qed.
+
+Definition Closed (t : arena) : Prop :=
+  Good t /\ exists r, Rep0 t None 0 r /\ ids r = seq 0 (length t).
+
+(* what the parser guarantees about a returned tree *)
+Definition ParsedTree (t : arena) : Prop :=
+  t <> [] /\
+  (forall i n, nth_error t i = Some n ->
+     ndeleted n = false /\ nid n = i /\ (forall p, nparent n = Some p -> p < i)) /\
+  exists r, Rep t None 0 0 r /\ ids r = seq 0 (length t).
+
+Lemma ids_seq_root r m : ids r = seq 0 m -> rid r = 0 /\ m <> 0.
+Proof. destruct r as [i cs]; destruct m; simpl; intros H; inversion H; auto. Qed.
+
+Theorem finish_closed t1 t' : Closed t1 -> finish t1 = Ok t' -> ParsedTree t'.
+Proof.
+  intros [HG [r [HR Hids]]] Hf. destruct (finish_spec HG Hf) as [Hlen HI].
+  destruct (ids_seq_root _ _ Hids) as [Hroot Hne].
+  assert (Hback : forall i n', nth_error t' i = Some n' -> exists n, nth_error t1 i = Some n /\
+            same_but_edges n n' /\ forall c, edge_get (nedges n') c = EdgeOf t1 i c).
+  { intros i n' Hn'. pose proof (nth_error_Some_lt _ _ Hn') as Hlt. rewrite Hlen in Hlt.
+    destruct (nth_error_lt_Some _ Hlt) as [n Hn]. destruct (HI _ _ Hn) as [n2 [Hn2 [Hs He]]].
+    rewrite Hn' in Hn2. inversion Hn2; subst n2. exists n. split; auto. split; auto.
+    intros c. rewrite He. destruct (Nat.ltb_spec c (length t1)); auto.
+    unfold EdgeOf. assert (nth_error t1 c = None) as -> by (apply nth_error_None; lia). auto. }
+  split. { intros ->. simpl in Hlen. congruence. }
+  split. { intros i n' Hn'. destruct (Hback _ _ Hn') as [n [Hn [Hs _]]].
+           destruct (HG _ _ Hn) as (A & B & _ & D). destruct Hs as (S1 & S2 & _ & _ & _ & S6 & _).
+           split; [congruence|]. split; [congruence|]. rewrite S2. exact D. }
+  exists r. split; [|rewrite Hlen; auto].
+  cut (Rep t' None 0 (rid r) r); [rewrite Hroot; auto|].
+  apply Rep0_Rep.
+  { eapply Rep0_transfer; [exact HR|]. intros j _ n Hn. destruct (HI _ _ Hn) as [n' [Hn' [Hs _]]].
+    exists n'. split; auto. destruct Hs as (_ & S2 & S3 & _ & S5 & _). repeat split; auto. }
+  intros i n' Hn'. destruct (Hback _ _ Hn') as [n [Hn [Hs He]]].
+  destruct (HG _ _ Hn) as (A & B & _). destruct Hs as (S1 & S2 & S3 & S4 & S5 & S6 & _).
+  split; [congruence|]. split; [congruence|]. split.
+  - intros c nc' Hnc' Hpar. destruct (Hback _ _ Hnc') as [nc [Hnc [Hsc _]]].
+    destruct Hsc as (_ & T2 & _ & T4 & _).
+    rewrite He. unfold EdgeOf. rewrite Hnc. rewrite <- T2, Hpar, Nat.eqb_refl. auto.
+  - intros c Hc. rewrite He in Hc. unfold EdgeOf in Hc.
+    destruct (nth_error t1 c) as [nc|] eqn:Hnc; [|congruence].
+    destruct (nparent nc) as [q|] eqn:Hq; [|congruence].
+    destruct (Nat.eqb_spec q i) as [->|]; [|congruence].
+    assert (Hin : In c (ids r)).
+    { rewrite Hids. apply in_seq. apply nth_error_Some_lt in Hnc. lia. }
+    destruct (Rep0_parent HR _ Hin) as [->|[j [nj [nc2 [Hnj [Hcj [Hnc2 Hp2]]]]]]].
+    + destruct (Rep0_root_node HR) as [n0 [Hn0 [Hp0 _]]]. congruence.
+    + assert (j = i) by congruence. subst j. rewrite S3. congruence.
+Qed.
+
+Lemma ParsedTree_WF t : ParsedTree t -> WF t.
+Proof.
+  intros (Hne & Hall & r & HR & Hids). right. exists 0, r. split; auto. split.
+  - rewrite Hids. apply seq_NoDup.
+  - intros i [n [Hn _]]. rewrite Hids. apply in_seq. apply nth_error_Some_lt in Hn. lia.
+Qed.
+
+(* --- consequences of ParsedTree, stated without rose trees -------------------------------------- *)
+Lemma Rep_rid (t : arena) p d i r : Rep t p d i r -> rid r = i.
+Proof. intros H; inversion H; subst; auto. Qed.
+
+Lemma Forall2_rid_map (R : nat -> rtree -> Prop) l cs :
+  Forall2 R l cs -> (forall c r, R c r -> rid r = c) -> l = map rid cs.
+Proof. induction 1; simpl; intros HR; auto. f_equal; auto. symmetry; auto. Qed.
+
+Lemma Forall2_Forall_r (R : nat -> rtree -> Prop) (Q : rtree -> Prop) l cs :
+  Forall2 R l cs -> Forall (fun r => forall c, R c r -> Q r) cs -> Forall Q cs.
+Proof. induction 1; intros HF; inversion HF; subst; constructor; eauto. Qed.
+
+Lemma Rep_Rep0 (t : arena) : forall r p d i, Rep t p d i r -> Rep0 t p d r.
+Proof.
+  induction r as [i cs IH] using rtree_ind'. intros p d j HR. inversion HR; subst.
+  econstructor; eauto.
+  - eapply Forall2_rid_map; eauto. intros c r Hr. eapply Rep_rid; eauto.
+  - eapply Forall2_Forall_r; eauto. eapply Forall_impl; [|exact IH].
+    intros r Hr c Hc. eapply Hr; eauto.
+Qed.
+
+Lemma In_rid_pre r : In (rid r) (pre r).
+Proof. destruct r; simpl; auto. Qed.
+
+Lemma Rep0_child (t : arena) : forall r p d, Rep0 t p d r ->
+  forall j nj c, In j (ids r) -> nth_error t j = Some nj -> In c (nchildren nj) ->
+  exists nc, nth_error t c = Some nc /\ nparent nc = Some j /\ ndepth nc = S (ndepth nj) /\ In c (ids r).
+Proof.
+  induction r as [i cs IH] using rtree_ind'. intros p d HR j nj c Hj Hnj Hc.
+  inversion HR; subst. rewrite Forall_forall in IH, H7. simpl in Hj. destruct Hj as [<-|Hj].
+  - rewrite H1 in Hnj. inversion Hnj; subst nj. rewrite H6 in Hc. apply in_map_iff in Hc.
+    destruct Hc as [rc [<- Hrc]]. destruct (Rep0_root_node (H7 _ Hrc)) as [nc [Hnc [Hp Hd]]].
+    exists nc. repeat split; auto. simpl. right. apply in_flat_map. exists rc. split; auto.
+    apply In_rid_pre.
+  - apply in_flat_map in Hj. destruct Hj as [rc [Hrc Hj]].
+    destruct (IH _ Hrc _ _ (H7 _ Hrc) _ _ _ Hj Hnj Hc) as [nc [A [B [C D]]]].
+    exists nc. repeat split; auto. simpl. right. apply in_flat_map. eauto.
+Qed.
+
+Section Consequences.
+Variable t : arena.
+Hypothesis HPT : ParsedTree t.
+
+Lemma PT_no_tombstone : forall i n, nth_error t i = Some n -> ndeleted n = false.
+Proof. destruct HPT as (_ & H & _). intros i n Hn. apply (H _ _ Hn). Qed.
+
+Lemma PT_ids : forall i n, nth_error t i = Some n -> nid n = i.
+Proof. destruct HPT as (_ & H & _). intros i n Hn. apply (H _ _ Hn). Qed.
+
+Lemma PT_single_root : forall i n, nth_error t i = Some n ->
+  (nparent n = None <-> i = 0) /\
+  (forall p, nparent n = Some p -> p < i /\ exists np, nth_error t p = Some np).
+Proof.
+  destruct HPT as (Hne & Hall & r & HR & Hids). apply Rep_Rep0 in HR.
+  intros i n Hn. pose proof (nth_error_Some_lt _ _ Hn) as Hlt.
+  destruct (Rep0_root_node HR) as [n0 [Hn0 [Hp0 _]]].
+  destruct (ids_seq_root _ _ Hids) as [Hroot _]. rewrite Hroot in Hn0.
+  assert (Hin : In i (ids r)) by (rewrite Hids; apply in_seq; lia).
+  split.
+  - split.
+    + intros Hp. destruct (Rep0_parent HR _ Hin) as [->|[j [nj [nc [_ [_ [Hnc Hpj]]]]]]]; auto. congruence.
+    + intros ->. congruence.
+  - intros p Hp. destruct (Hall _ _ Hn) as (_ & _ & Hlt'). specialize (Hlt' _ Hp). split; auto.
+    apply nth_error_lt_Some. lia.
+Qed.
+
+Lemma PT_parent_child_consistent : forall p c np nc,
+  nth_error t p = Some np -> nth_error t c = Some nc ->
+  (In c (nchildren np) <-> nparent nc = Some p).
+Proof.
+  destruct HPT as (Hne & Hall & r & HR & Hids). apply Rep_Rep0 in HR.
+  intros p c np nc Hnp Hnc.
+  pose proof (nth_error_Some_lt _ _ Hnp) as Hltp. pose proof (nth_error_Some_lt _ _ Hnc) as Hltc.
+  assert (Hinp : In p (ids r)) by (rewrite Hids; apply in_seq; lia).
+  assert (Hinc : In c (ids r)) by (rewrite Hids; apply in_seq; lia).
+  split.
+  - intros Hc. destruct (Rep0_child HR _ _ Hinp Hnp Hc) as [nc' [A [B _]]]. congruence.
+  - intros Hp. destruct (Rep0_parent HR _ Hinc) as [->|[j [nj [nc2 [Hnj [Hcj [Hnc2 Hp2]]]]]]].
+    + destruct (Rep0_root_node HR) as [n0 [Hn0 [Hp0 _]]]. congruence.
+    + assert (j = p) by congruence. subst j. congruence.
+Qed.
+
+Lemma PT_children_in_range : forall p np c,
+  nth_error t p = Some np -> In c (nchildren np) -> p < c /\ c < length t.
+Proof.
+  destruct HPT as (Hne & Hall & r & HR & Hids). apply Rep_Rep0 in HR.
+  intros p np c Hnp Hc. pose proof (nth_error_Some_lt _ _ Hnp) as Hltp.
+  assert (Hinp : In p (ids r)) by (rewrite Hids; apply in_seq; lia).
+  destruct (Rep0_child HR _ _ Hinp Hnp Hc) as [nc [A [B _]]].
+  split; [|eapply nth_error_Some_lt; eauto]. destruct (Hall _ _ A) as (_ & _ & Hlt). auto.
+Qed.
+
+Lemma PT_depth_exact : forall i n, nth_error t i = Some n ->
+  match nparent n with
+  | None => ndepth n = 0
+  | Some p => exists np, nth_error t p = Some np /\ ndepth n = S (ndepth np)
+  end.
+Proof.
+  intros i n Hn. destruct (PT_single_root _ Hn) as [Hroot Hpar].
+  destruct HPT as (Hne & Hall & r & HR & Hids). apply Rep_Rep0 in HR.
+  destruct (nparent n) as [p|] eqn:Hp.
+  - destruct (Hpar _ eq_refl) as [Hlt [np Hnp]]. exists np. split; auto.
+    assert (Hinp : In p (ids r)).
+    { rewrite Hids; apply in_seq. apply nth_error_Some_lt in Hnp. lia. }
+    assert (Hc : In i (nchildren np)).
+    { eapply PT_parent_child_consistent; eauto. }
+    destruct (Rep0_child HR _ _ Hinp Hnp Hc) as [nc [A [B [C _]]]]. congruence.
+  - assert (i = 0) by (apply Hroot; auto). subst i.
+    destruct (Rep0_root_node HR) as [n0 [Hn0 [_ Hd0]]].
+    destruct (ids_seq_root _ _ Hids) as [Hr0 _]. rewrite Hr0 in Hn0. congruence.
+Qed.
+
+End Consequences.
+
+End Finish.
+
+(* ================================================================================================ *)
+(* Part 5: results of the parser are well formed                                                     *)
+(* ================================================================================================ *)
+Section ParserWF.
+Context {L : Type}.
+Variable parse_len : str -> option L.
+Notation node := (@node L).
+Notation arena := (@arena L).
+Notation pstate := (@pstate L).
+Notation pres := (@pres L).
+
+Lemma PI_closed (t : arena) idx op : PI t idx [] op -> t <> [] -> Closed t.
+Proof.
+  intros [HG [Ho [Hi Hc]]] Hne. split; auto.
+  destruct Hc as [[Ht _]|[[fs [Hfs [Hst _]]]|[_ Hr]]]; auto; try contradiction.
+  destruct fs; [contradiction|discriminate].
+Qed.
+
+Lemma PI_single : PI [set_nid (@new_node L None None) 0] (Some 0) [] 0.
+Proof.
+  split; [apply Good_single; reflexivity|]. split; auto. split.
+  { intros i E; inversion E; subst; simpl; lia. }
+  right. right. split; auto. exists (RT 0 []). split; [|reflexivity].
+  econstructor; try reflexivity. constructor.
+Qed.
+
+Ltac step_if_eq :=
+  match goal with |- (if ?b then _ else _) = _ -> _ => destruct b eqn:? end.
+
+Lemma semi_go (s : pstate) t idx t' :
+  PI t (Some idx) [] 0 ->
+  lift_run (get t idx) (fun n : node =>
+        let n1 := set_ncomment (set_nname n (p_name s)) (p_comment s) in
+        match (match p_len s with
+               | Some ls => match parse_len ls with Some v => Some (set_npedge n1 (Some v)) | None => None end
+               | None => Some n1
+               end) with
+        | None => Done (Err FloatError)
+        | Some n2 =>
+            match finish (replace_nth idx n2 t) with
+            | Ok t' => Done (Ok t')
+            | Err _ => Done (Err NwTreeError)
+            | Panic x => Done (Panic x)
+            | OutOfFuel => Done OutOfFuel
+            end
+        end) = Done (Ok t') ->
+  exists t1, Closed t1 /\ finish t1 = Ok t'.
+Proof.
+  intros HP. destruct (get t idx) as [n| | |] eqn:Hg; simpl lift_run; try discriminate.
+  cbv zeta. apply get_Ok in Hg. destruct Hg as [Hn _].
+  destruct (match p_len s with Some ls => _ | None => _ end) as [n2|] eqn:Hn2; [|discriminate].
+  destruct (finish (replace_nth idx n2 t)) as [tf| | |] eqn:Hfin; try discriminate.
+  intros H; inversion H; subst tf; clear H.
+  exists (replace_nth idx n2 t). split; auto.
+  apply PI_closed with (idx := Some idx) (op := 0).
+  - eapply PI_shape; eauto.
+    + destruct (p_len s); [destruct (parse_len _)|]; inversion Hn2; subst; simpl; repeat split; auto.
+    + destruct (p_len s); [destruct (parse_len _)|]; inversion Hn2; subst; simpl; repeat split; auto.
+  - intros E. apply (f_equal (@length _)) in E. rewrite replace_nth_length in E.
+    apply nth_error_Some_lt in Hn. simpl in E. lia.
+Qed.
+
+Lemma pstep_done_ok s c t :
+  PInv s -> pstep parse_len s c = Done (Ok t) ->
+  (c = ch_semi /\ p_open s = 0) /\ exists t1, Closed t1 /\ finish t1 = Ok t.
+Proof.
+  intros HP. unfold pstep.
+  step_if_eq; [discriminate|].
+  step_if_eq; [discriminate|].
+  step_if_eq; [discriminate|].
+  step_if_eq; [discriminate|].
+  step_if_eq; [discriminate|].
+  step_if_eq; [discriminate|].
+  step_if_eq.
+  { destruct (p_stack s).
+    - destruct (p_tree s); discriminate.
+    - destruct (add_child _ _ _ _); discriminate. }
+  step_if_eq; [discriminate|].
+  step_if_eq.
+  { destruct (commit_PI parse_len s (fun t => Running (mkP t FName None None None None (p_stack s) (p_open s) (p_quotes s))) HP)
+      as [Hf|[t' [HP' Heq]]].
+    - intros H. rewrite H in Hf. destruct Hf.
+    - rewrite Heq. discriminate. }
+  step_if_eq.
+  { set (s1 := mkP (p_tree s) (p_field s) (p_name s) (p_len s) (p_comment s) (p_index s) (p_stack s) (p_open s - 1) (p_quotes s)).
+    destruct (@commit_PI _ parse_len s1 (fun t =>
+      match p_stack s with
+      | parent :: rest => Running (mkP t FName None None None (Some parent) rest (p_open s - 1) (p_quotes s))
+      | [] => Done (Err NoSubtreeParent)
+      end) (p_open s) HP) as [Hf|[t' [HP' Heq]]].
+    - intros H. rewrite H in Hf. destruct Hf.
+    - rewrite Heq. destruct (p_stack s); discriminate. }
+  step_if_eq.
+  { step_if_eq; [discriminate|].
+    assert (Hop : p_open s = 0).
+    { destruct (Nat.eqb_spec (p_open s) 0); auto; discriminate. }
+    assert (Hc : c = ch_semi) by (apply N.eqb_eq; auto).
+    intros H. split; auto. revert H.
+    unfold PInv in HP.
+    assert (Hst : p_stack s = []).
+    { destruct HP as [_ [Ho _]]. rewrite Hop in Ho. destruct (p_stack s); auto; discriminate. }
+    rewrite Hst, Hop in HP.
+    destruct (p_index s) as [idx|] eqn:Hidx.
+    - apply semi_go; auto.
+    - destruct (p_tree s) eqn:Ht; [|discriminate].
+      change (let '(t1, id) := add [] (@new_node L None None) in ?g t1 id)
+        with (g [set_nid (@new_node L None None) 0] 0).
+      apply semi_go. apply PI_single. }
+  destruct (p_field s); [discriminate| |discriminate].
+  step_if_eq; discriminate.
+Qed.
+
+Lemma prun_PInv s input t :
+  PInv s -> prun parse_len s input = Ok t -> exists t1, Closed t1 /\ finish t1 = Ok t.
+Proof.
+  revert s; induction input as [|c rest IH]; intros s HP; simpl; [discriminate|].
+  destruct (pstep parse_len s c) as [s'|r] eqn:Hs.
+  - apply IH. eapply pstep_PInv; eauto.
+  - intros ->. eapply pstep_done_ok; eauto.
+Qed.
+
+Theorem parse_tree s t : from_newick parse_len s = Ok t -> ParsedTree t.
+Proof.
+  intros H. destruct (prun_PInv _ (PInv_init (L:=L)) H) as [t1 [Hc Hf]].
+  eapply finish_closed; eauto.
+Qed.
+
+End ParserWF.
+
+(* ================================================================================================ *)
+(* Part 6: rejections — a closing ';' is required and the structural parentheses are balanced        *)
+(* ================================================================================================ *)
+
+(* An independent scanner: it follows only the quote flag and the current field (exactly the first
+   tests of the state machine) and keeps the characters '(' ')' ';' that are read as delimiters;
+   it stops at the first delimiter ';'. *)
+Inductive sk_act := SkSkip (q : bool) (f : field) | SkOpen | SkClose | SkSemi.
+
+Definition sk_step (q : bool) (f : field) (c : N) : sk_act :=
+  if q && (match f with FName => true | _ => false end) && negb (c =? ch_quote)%N then SkSkip q f
+  else if (match f with FComment => true | _ => false end) && negb (c =? ch_rbr)%N then SkSkip q f
+  else if is_ws c && negb q then SkSkip q f
+  else if (c =? ch_quote)%N then SkSkip (negb q) f
+  else if (c =? ch_lbr)%N then SkSkip q FComment
+  else if (c =? ch_rbr)%N then SkSkip q FName
+  else if (c =? ch_lpar)%N then SkOpen
+  else if (c =? ch_colon)%N then SkSkip q FLength
+  else if (c =? ch_comma)%N then SkSkip q FName
+  else if (c =? ch_rpar)%N then SkClose
+  else if (c =? ch_semi)%N then SkSemi
+  else SkSkip q f.
+
+Fixpoint skel (q : bool) (f : field) (s : str) : list N :=
+  match s with
+  | [] => []
+  | c :: r =>
+      match sk_step q f c with
+      | SkSkip q' f' => skel q' f' r
+      | SkOpen => ch_lpar :: skel q f r
+      | SkClose => ch_rpar :: skel q FName r
+      | SkSemi => [ch_semi]
+      end
+  end.
+Definition skeleton (s : str) : list N := skel false FName s.
+
+(* depth never negative, zero at the ';', and the ';' is the last kept character *)
+Fixpoint balanced_from (d : nat) (l : list N) : bool :=
+  match l with
+  | [] => false
+  | c :: l' =>
+      if (c =? ch_lpar)%N then balanced_from (S d) l'
+      else if (c =? ch_rpar)%N then match d with 0 => false | S d' => balanced_from d' l' end
+      else if (c =? ch_semi)%N then Nat.eqb d 0 && match l' with [] => true | _ => false end
+      else false
+  end.
+Definition balanced (l : list N) : bool := balanced_from 0 l.
+
+Lemma balanced_from_semi d l : balanced_from d l = true -> In ch_semi l.
+Proof.
+  revert d; induction l as [|c l IH]; simpl; intros d H; [discriminate|].
+  destruct (c =? ch_lpar)%N; [right; eapply IH; eassumption|].
+  destruct (c =? ch_rpar)%N; [destruct d; [discriminate|right; eapply IH; eassumption]|].
+  destruct (c =? ch_semi)%N eqn:E; [|discriminate]. left. apply N.eqb_eq; auto.
+Qed.
+
+Lemma balanced_from_count d l :
+  balanced_from d l = true ->
+  d + count_occ N.eq_dec l ch_lpar = count_occ N.eq_dec l ch_rpar.
+Proof.
+  revert d; induction l as [|c l IH]; intros d H; [discriminate|].
+  cbn [balanced_from] in H. cbn [count_occ].
+  destruct (N.eqb_spec c ch_lpar) as [->|Hl].
+  - apply IH in H. destruct (N.eq_dec ch_lpar ch_lpar); [|congruence].
+    destruct (N.eq_dec ch_lpar ch_rpar); [discriminate|]. lia.
+  - destruct (N.eqb_spec c ch_rpar) as [->|Hr].
+    + destruct d; [discriminate|]. apply IH in H.
+      destruct (N.eq_dec ch_rpar ch_lpar); [discriminate|].
+      destruct (N.eq_dec ch_rpar ch_rpar); [|congruence]. lia.
+    + destruct (N.eqb_spec c ch_semi) as [->|Hs]; [|discriminate].
+      destruct l; [|rewrite andb_false_r in H; discriminate].
+      destruct (Nat.eqb_spec d 0); [|discriminate]. subst. reflexivity.
+Qed.
+
+Lemma In_skel c : forall s q f, In c (skel q f s) -> In c s.
+Proof.
+  induction s as [|a s IH]; simpl; intros q f H; auto.
+  unfold sk_step in H.
+  repeat match type of H with
+         | In _ (match (if ?b then _ else _) with _ => _ end) => destruct b eqn:?
+         end;
+  simpl in H; try (right; eapply IH; eassumption);
+  repeat match goal with E : (a =? _)%N = true |- _ => apply N.eqb_eq in E end;
+  try (destruct H as [H|H]; [left; congruence|]); try (right; eapply IH; eassumption);
+  try contradiction.
+Qed.
+
+Section Reject.
+Context {L : Type}.
+Variable parse_len : str -> option L.
+Notation pstate := (@pstate L).
+
+(* one step of the parser against one step of the scanner *)
+Definition step_agrees (s : pstate) (c : N) : Prop :=
+  match sk_step (p_quotes s) (p_field s) c with
+  | SkSkip q' f' =>
+      (forall t, pstep parse_len s c <> Done (Ok t)) /\
+      (forall s', pstep parse_len s c = Running s' ->
+                  p_quotes s' = q' /\ p_field s' = f' /\ p_open s' = p_open s)
+  | SkOpen =>
+      (forall t, pstep parse_len s c <> Done (Ok t)) /\
+      (forall s', pstep parse_len s c = Running s' ->
+                  p_quotes s' = p_quotes s /\ p_field s' = p_field s /\ p_open s' = S (p_open s))
+  | SkClose =>
+      (forall t, pstep parse_len s c <> Done (Ok t)) /\
+      (forall s', pstep parse_len s c = Running s' ->
+                  p_quotes s' = p_quotes s /\ p_field s' = FName /\ p_open s = S (p_open s'))
+  | SkSemi =>
+      (forall s', pstep parse_len s c <> Running s') /\
+      (forall t, pstep parse_len s c = Done (Ok t) -> p_open s = 0)
+  end.
+
+Ltac sk_if :=
+  match goal with
+  | |- match (if ?b then _ else _) with _ => _ end => destruct b eqn:?; cbv beta iota
+  end.
+Ltac skip_running :=
+  split; [intros ? ?; discriminate
+         |let H := fresh in intros ? H; inversion H; subst; simpl; auto].
+
+Lemma pstep_agrees s c : PInv s -> step_agrees s c.
+Proof.
+  intros HP. unfold step_agrees, pstep, sk_step.
+  sk_if; [skip_running|].
+  sk_if; [skip_running|].
+  sk_if; [skip_running|].
+  sk_if; [skip_running|].
+  sk_if; [skip_running|].
+  sk_if; [skip_running|].
+  sk_if.
+  { destruct (p_stack s) as [|parent rest].
+    - destruct (p_tree s); [skip_running|split; intros; discriminate].
+    - destruct (add_child (p_tree s) (new_node None None) parent None) as [[t0 id]| | |]; simpl;
+        [skip_running|split; intros; discriminate..]. }
+  sk_if; [skip_running|].
+  sk_if.
+  { destruct (commit_PI parse_len s (fun t => Running (mkP t FName None None None None (p_stack s) (p_open s) (p_quotes s))) HP)
+      as [Hf|[t' [HP' Heq]]].
+    - split; intros ? H; rewrite H in Hf; destruct Hf.
+    - rewrite Heq. skip_running. }
+  sk_if.
+  { set (s1 := mkP (p_tree s) (p_field s) (p_name s) (p_len s) (p_comment s) (p_index s) (p_stack s) (p_open s - 1) (p_quotes s)).
+    destruct (@commit_PI _ parse_len s1 (fun t =>
+      match p_stack s with
+      | parent :: rest => Running (mkP t FName None None None (Some parent) rest (p_open s - 1) (p_quotes s))
+      | [] => Done (Err NoSubtreeParent)
+      end) (p_open s) HP) as [Hf|[t' [HP' Heq]]].
+    - split; intros ? H; rewrite H in Hf; destruct Hf.
+    - rewrite Heq. destruct HP as [_ [Ho _]].
+      destruct (p_stack s) as [|parent rest]; [split; intros; discriminate|].
+      split; [intros ? ?; discriminate|].
+      intros s' H; inversion H; subst; simpl. repeat split; auto. simpl in Ho. lia. }
+  sk_if.
+  { destruct (negb (p_open s =? 0)) eqn:Hop.
+    - split; intros; discriminate.
+    - assert (Hop' : p_open s = 0) by (destruct (Nat.eqb_spec (p_open s) 0); auto; discriminate).
+      split; [|auto]. intros s'.
+      destruct (p_index s).
+      + unfold lift_run. destruct (get (p_tree s) n); try discriminate.
+        destruct (match p_len s with Some ls => _ | None => _ end); [|discriminate].
+        destruct (finish _); discriminate.
+      + destruct (p_tree s); [|discriminate]. simpl.
+        destruct (match p_len s with Some ls => _ | None => _ end); [|discriminate].
+        destruct (finish _); discriminate. }
+  destruct (p_field s); [skip_running| |split; intros; discriminate].
+  destruct (is_ws c); [split; intros; discriminate|skip_running].
+Qed.
+
+Lemma prun_balanced s input t :
+  PInv s -> prun parse_len s input = Ok t ->
+  balanced_from (p_open s) (skel (p_quotes s) (p_field s) input) = true.
+Proof.
+  revert s; induction input as [|c rest IH]; intros s HP; simpl; [discriminate|].
+  pose proof (pstep_agrees c HP) as Hag. unfold step_agrees in Hag.
+  destruct (pstep parse_len s c) as [s'|r] eqn:Hs.
+  - intros Hrun. assert (HP' : PInv s') by (eapply pstep_PInv; eauto). specialize (IH _ HP' Hrun).
+    destruct (sk_step (p_quotes s) (p_field s) c) as [q' f'| | |].
+    + destruct Hag as [_ Hr]. destruct (Hr _ eq_refl) as [<- [<- <-]]. exact IH.
+    + destruct Hag as [_ Hr]. destruct (Hr _ eq_refl) as [E1 [E2 E3]].
+      rewrite E1, E2, E3 in IH. exact IH.
+    + destruct Hag as [_ Hr]. destruct (Hr _ eq_refl) as [E1 [E2 E3]].
+      rewrite E1, E2 in IH. rewrite E3. exact IH.
+    + destruct Hag as [Hr _]. exfalso. eapply Hr; eauto.
+  - intros ->.
+    destruct (sk_step (p_quotes s) (p_field s) c) as [q' f'| | |].
+    + destruct Hag as [Hr _]. exfalso. eapply Hr; eauto.
+    + destruct Hag as [Hr _]. exfalso. eapply Hr; eauto.
+    + destruct Hag as [Hr _]. exfalso. eapply Hr; eauto.
+    + destruct Hag as [_ Hr]. rewrite (Hr _ eq_refl). reflexivity.
+Qed.
+
+End Reject.
+
+(* ================================================================================================ *)
+(* Part 7: the theorems of C02, for an arbitrary [parse_len]                                         *)
+(* ================================================================================================ *)
+Section Main.
+Variable L : Type.
+Variable parse_len : str -> option L.
+Variable s : str.
+Variable t : @arena L.
+Hypothesis Hparse : from_newick parse_len s = Ok t.
+
+(* (3) well-formedness *)
+Theorem parse_parsed_tree : ParsedTree t.
+Proof. eapply parse_tree; eauto. Qed.
+
+Theorem parse_wf :
+  WF t /\ t <> [] /\ (forall i n, nth_error t i = Some n -> ndeleted n = false).
+Proof.
+  pose proof parse_parsed_tree as H. split; [apply ParsedTree_WF; auto|].
+  split; [apply H|]. apply PT_no_tombstone; auto.
+Qed.
+
+(* the rose tree is rooted at slot 0 and its preorder is the arena order *)
+Theorem parse_preorder : exists r, Rep t None 0 0 r /\ ids r = seq 0 (length t).
+Proof. apply parse_parsed_tree. Qed.
+
+Theorem parse_no_tombstone : forall i n, nth_error t i = Some n -> ndeleted n = false.
+Proof. apply PT_no_tombstone, parse_parsed_tree. Qed.
+
+Theorem parse_ids : forall i n, nth_error t i = Some n -> nid n = i.
+Proof. apply PT_ids, parse_parsed_tree. Qed.
+
+Theorem parse_single_root : forall i n, nth_error t i = Some n ->
+  (nparent n = None <-> i = 0) /\
+  (forall p, nparent n = Some p -> p < i /\ exists np, nth_error t p = Some np).
+Proof. apply PT_single_root, parse_parsed_tree. Qed.
+
+Theorem parse_parent_child_consistent : forall p c np nc,
+  nth_error t p = Some np -> nth_error t c = Some nc ->
+  (In c (nchildren np) <-> nparent nc = Some p).
+Proof. apply PT_parent_child_consistent, parse_parsed_tree. Qed.
+
+Theorem parse_children_in_range : forall p np c,
+  nth_error t p = Some np -> In c (nchildren np) -> p < c /\ c < length t.
+Proof. apply PT_children_in_range, parse_parsed_tree. Qed.
+
+Theorem parse_depth_exact : forall i n, nth_error t i = Some n ->
+  match nparent n with
+  | None => ndepth n = 0
+  | Some p => exists np, nth_error t p = Some np /\ ndepth n = S (ndepth np)
+  end.
+Proof. apply PT_depth_exact, parse_parsed_tree. Qed.
+
+(* (2) rejections *)
+Theorem parse_balanced : balanced (skeleton s) = true.
+Proof. exact (@prun_balanced L parse_len p_init s t (PInv_init (L:=L)) Hparse). Qed.
+
+Theorem parse_semicolon_delim : In ch_semi (skeleton s).
+Proof. eapply balanced_from_semi. apply parse_balanced. Qed.
+
+Theorem parse_needs_semicolon : In 59%N s.
+Proof. eapply In_skel. apply parse_semicolon_delim. Qed.
+
+Theorem parse_paren_count :
+  count_occ N.eq_dec (skeleton s) ch_lpar = count_occ N.eq_dec (skeleton s) ch_rpar.
+Proof. apply (balanced_from_count 0). apply parse_balanced. Qed.
+
+End Main.
+
+(* the run returns Ok only from a state whose open-delimiter count is 0 *)
+Theorem parse_ok_open_zero : forall (L : Type) (parse_len : str -> option L) (st : @pstate L) c t,
+  PInv st -> pstep parse_len st c = Done (Ok t) -> c = ch_semi /\ p_open st = 0.
+Proof. intros. eapply pstep_done_ok; eauto. Qed.
+
+(* sanity: the hypotheses are satisfiable and the scanner behaves as intended *)
+Example ex_parse_ok :
+  match from_newick (fun _ => @None nat) [40;65;44;40;66;44;67;41;68;41;69;59]%N with
+  | Ok t => length t = 5
+  | _ => False
+  end.
+Proof. vm_compute. reflexivity. Qed.
+Example ex_skeleton :
+  skeleton [40;34;40;34;44;91;41;93;40;66;41;41;59;40]%N = [40;40;41;41;59]%N.
+Proof. vm_compute. reflexivity. Qed.
+Example ex_unbalanced : balanced (skeleton [40;65;44;66;59]%N) = false.
+Proof. vm_compute. reflexivity. Qed.
+
+Print Assumptions parse_total.
+Print Assumptions parse_wf.
+Print Assumptions parse_parsed_tree.
+Print Assumptions parse_preorder.
+Print Assumptions parse_no_tombstone.
+Print Assumptions parse_ids.
+Print Assumptions parse_single_root.
+Print Assumptions parse_parent_child_consistent.
+Print Assumptions parse_children_in_range.
+Print Assumptions parse_depth_exact.
+Print Assumptions parse_balanced.
+Print Assumptions parse_semicolon_delim.
+Print Assumptions parse_needs_semicolon.
+Print Assumptions parse_paren_count.
+Print Assumptions parse_ok_open_zero.
